@@ -161,6 +161,9 @@ class C06(Check):
                {'api': 'valid_twice'}, {'api': 'to_json_fp'}]
         for p in entry.family.paths:
             out.append({'api': 'iter_decode_path', 'path': p})
+        for p in getattr(entry.family, 'doc_ns_paths', ()):
+            # no namespace map: the names of the path are resolved with the declarations of the document
+            out.append({'api': 'iter_decode_path', 'path': p, 'docns': True})
         out.append({'api': 'res_all'})
         return out
 
@@ -221,7 +224,8 @@ class C06(Check):
             if api == 'iter_decode_path':
                 items = []
                 errs = []
-                for x in schema.iter_decode(source, path=op['path'], namespaces=family_ns(entry)):
+                for x in schema.iter_decode(source, path=op['path'],
+                                            namespaces=None if op.get('docns') else family_ns(entry)):
                     if isinstance(x, xmlschema.XMLSchemaValidationError):
                         errs.append(x)
                     else:
@@ -238,6 +242,8 @@ class C06(Check):
                 subs.append({'api': 'res_depth', 'mode': mode, 'lazy': depth})
             for p in entry.family.paths:
                 subs.append({'api': 'res_find', 'path': p, 'lazy': depth, 'ns': family_ns(entry)})
+            for p in getattr(entry.family, 'doc_ns_paths', ()):
+                subs.append({'api': 'res_find', 'path': p, 'lazy': depth, 'docns': True})
         subs += [{'api': 'res_iter'}, {'api': 'res_ns'}, {'api': 'res_loc'}]
         return subs
 
@@ -291,6 +297,9 @@ class C06(Check):
             op['mode'] = rng.randrange(1, 6)
         if api in ('iter_decode_path', 'res_find'):
             op['path'] = rng.choice([p_ for p_ in e.family.paths if '/' in p_ or '[' in p_] if pfocus else e.family.paths)
+            if getattr(e.family, 'doc_ns_paths', None) and not pfocus and rng.random() < 0.5:
+                op['path'] = rng.choice(e.family.doc_ns_paths)
+                op['docns'] = True
         ch = rng.choice(CHANNELS)
         plan, pclass = simio.gen_plan(rng, data)
         src = {'ch': ch, 'plan': plan, 'pclass': pclass}
@@ -332,7 +341,7 @@ class C06(Check):
                 source, core_ = ops.make_source(env, data, src)
                 resource = xmlschema.XMLResource(source, lazy=True if depth == 1 else depth,
                                                  thin_lazy=op.get('thin', True))
-                if op['api'] in RESOURCE_APIS and op['api'] == 'res_find':
+                if op['api'] in RESOURCE_APIS and op['api'] == 'res_find' and not op.get('docns'):
                     op['ns'] = family_ns(e)
                 got = self.evaluate(e, data, op, eager=False, source=resource)
             except Exception as exc:
@@ -375,7 +384,7 @@ class C06(Check):
             r = self.refs[(case['entry'], case['doc'], json.dumps({'api': 'iter_errors'}, sort_keys=True))]
             ref = {'k': 'ok', 'v': not r['v']} if r['k'] == 'ok' else r
         else:
-            rop = {k: v for k, v in op.items() if k in ('api', 'path')}
+            rop = {k: v for k, v in op.items() if k in ('api', 'path', 'docns')}
             ref = self.refs[(case['entry'], case['doc'], json.dumps(rop, sort_keys=True))]
 
         sig = self.judge(op, src, got, ref, incremental)
